@@ -710,6 +710,11 @@ impl WriterSet {
             self.segment_size,
             self.compression,
         )?;
+        // Offsets of the new segment start over, so the synced offset published for the old
+        // segment must not be compared against them: waiters of the old segment were already
+        // satisfied by the sync above, new appends wait on a channel of the new writer.
+        let (sync_tx, _) = watch::channel(self.writer.write_offset());
+        self.sync_tx = sync_tx;
         let old_reader = mem::replace(
             &mut self.reader,
             BucketSegmentReader::open(
